@@ -16,8 +16,8 @@ import (
 	"os"
 	"testing"
 
-	"verifc20/stringx"
-	kit "verifc20/verifkit"
+	"github.com/gotid/god/tools/god/util/stringx"
+	kit "github.com/gotid/god/tools/god/zz_verif/kit"
 )
 
 // c20Judge compares one FileNamingFormat result with the prediction; class "" = agrees.
